@@ -491,6 +491,55 @@ func nhScenarioImport(rec *nhRec, tid int, seed int64, smType string, store stri
 		}
 		rec.emit("PostImport", ev)
 	}
+	// a replacement replica is added before anything new is written (what an operator does first after a
+	// repair): it is brought up to date from the imported state - by a snapshot, the log starts there - and
+	// must hold the exported state as well
+	if leader {
+		spare := 0
+		for i := 8; i >= 5; i-- {
+			if _, ok := list[uint64(i)]; !ok {
+				spare = i
+				break
+			}
+		}
+		if _, wasMember := oldm.Nodes[uint64(spare)]; spare != 0 && !wasMember {
+			added := false
+			for try := 0; try < 20 && !added; try++ {
+				for _, hid := range importers {
+					ctx, cancel := context.WithTimeout(context.Background(), time.Second)
+					err := r.nhOf(hid).SyncRequestAddReplica(ctx, c.shard, uint64(spare), addr(spare), 0)
+					cancel()
+					if err == nil {
+						added = true
+						break
+					}
+				}
+			}
+			ev := nhEv{"h": spare, "added": added, "read": false, "state_equal": false}
+			if added {
+				hs := c.host(spare)
+				if err := c.startHost(hs); err != nil {
+					panic(fmt.Sprintf("start spare host: %v", err))
+				}
+				if err := c.startReplica(hs, nil, true); err != nil {
+					panic(fmt.Sprintf("start joining replica: %v", err))
+				}
+				hs.joined = true
+				for try := 0; try < 100; try++ {
+					ctx, cancel := context.WithTimeout(context.Background(), time.Second)
+					a, err := r.nhOf(spare).SyncRead(ctx, c.shard, nhQuery{Op: "dump"})
+					cancel()
+					if err == nil {
+						ev["read"] = true
+						ev["state_equal"] = a.(nhAnswer).Dump == dump
+						break
+					}
+					time.Sleep(20 * time.Millisecond)
+				}
+			}
+			rec.emit("PostImportJoin", ev)
+		}
+	}
 	okp := propose(1, 9000)
 	seen := false
 	if okp {
